@@ -328,6 +328,54 @@ def check(case):
 # ---------------------------------------------------------------------------------------------
 # known-finding classifiers
 
+LIST_OPS = ('s_from_list', 's_from_items', 'f_from_records_mixed', 'f_from_items', 'f_from_dict_records', 'f_from_records')
+
+
+_CLS = {'int': 'integer', 'bool_': 'bool', 'float': 'inexact', 'complex': 'inexact', 'bytes_': 'bytes', 'str_': 'str',
+        'timedelta64': 'timedelta', 'datetime64': 'datetime', 'NoneType': 'none'}
+# what np.array() does to a heterogeneous Python iterable that the library does not guard (supplied -> stored)
+_NP_COERCIONS = {('bool', 'integer'), ('bool', 'inexact'), ('bool', 'timedelta'), ('bool', 'bytes'), ('integer', 'bytes'), ('inexact', 'bytes'),
+                 ('integer', 'timedelta'), ('timedelta', 'datetime')}
+
+
+def _coerced_pair(case, f):
+    """Is this failure one of the recorded NumPy coercions of a heterogeneous Python iterable?"""
+    import re
+    m = re.search(r'supplied .*? \((\w+)\), stored .* \((\w+)\)\s*$', f.detail, re.S)
+    if not m:
+        # an integer / timedelta that np.array() turned into the NaT of the iterable's timedelta64 / datetime64 elements
+        m2 = re.search(r"supplied (.+?), stored missing np\.(timedelta64|datetime64)\('NaT'", f.detail)
+        if m2:
+            want = {'timedelta64': 'timedelta', 'datetime64': 'datetime'}[m2.group(2)]
+            its = _iterable_for(case, f)
+            return any(typeclass(x) == want for x in its) and len({typeclass(x) for x in its if x is not None}) >= 2
+        # a missing float/complex stored as its text in a bytes array
+        return bool(re.search(r"supplied missing \(?nan.*, stored b'", f.detail)) and any(typeclass(x) == 'bytes' for x in _iterable_for(case, f))
+
+    def cls(n):
+        n = _CLS.get(n, n)
+        if n.startswith(('int', 'uint')):
+            return 'integer'
+        if n.startswith(('float', 'complex')):
+            return 'inexact'
+        return n
+    if len({typeclass(x) for x in _iterable_for(case, f) if x is not None}) < 2:
+        return False  # a homogeneous iterable: not this finding
+    return (cls(m.group(1)), cls(m.group(2))) in _NP_COERCIONS
+
+
+def _iterable_for(case, f):
+    """The elements of the Python iterable that produced the failing cell (LIST_OPS only)."""
+    la, lb = arr_list(case['a']), arr_list(case['b'])
+    if case['op'] in ('f_from_records', 'f_from_items', 'f_from_dict_records'):
+        where = f.detail.split('[')[0]
+        col = la if where.endswith('.x') else lb
+        if case['op'] == 'f_from_dict_records':
+            col = col + [_el(case['b'], case['i'])]
+        return col
+    return la + lb
+
+
 def _big_int(x):
     return isinstance(x, (int, np.integer)) and not isinstance(x, (bool, np.bool_, np.timedelta64)) and abs(int(x)) > 2 ** 53
 
@@ -338,7 +386,9 @@ def tag(case, f):
     kinds = {ka.kind, kb.kind}
     elems = arr_list(case['a']) + arr_list(case['b'])
     # (a) 64-bit integers beyond 2**53 resolved with float (or int64 with uint64) become float64
-    if f.kind == 'value' and any(_big_int(x) for x in elems) and ('(int), stored' in d or '(int64), stored' in d or '(uint64), stored' in d) \
+    # (array-level dtype resolution, or int64-with-uint64 inside an all-integer iterable; in a Python iterable the library
+    # guards big Python ints meeting a float by building an object array, so a big int lost next to a float is *not* this finding)
+    if f.kind == 'value' and (case['op'] not in LIST_OPS or not any(typeclass(x) == 'inexact' for x in _iterable_for(case, f))) and any(_big_int(x) for x in elems) and ('(int), stored' in d or '(int64), stored' in d or '(uint64), stored' in d) \
             and (d.rstrip().endswith('(float)') or d.rstrip().endswith('(float64)') or d.rstrip().endswith('(complex)') or d.rstrip().endswith('(complex128)')):
         return 'int64-beyond-2**53-promoted-to-float'
     # (c) datetime64/timedelta64 finer than microseconds merged into an object array becomes a Python int
@@ -348,7 +398,9 @@ def tag(case, f):
     if case['op'] in ('s_assign_el', 'f_assign_el', 'f_assign_bloc', 's_fillna', 'f_fillna', 'f_fillna_sided') and 'ndarray' in d and isinstance(_el(case['b'], case['i']), (bytes, np.bytes_)):
         return 'bytes-element-treated-as-iterable'
     # (b) heterogeneous Python iterables handed to np.array(): bool/number/bytes/datetime coerced into one another
-    if case['op'] in ('s_from_list', 's_from_items', 'f_from_records_mixed', 'f_from_items', 'f_from_dict_records', 'f_from_records') and f.kind in ('class', 'value', 'truncated', 'none-coerced'):
+    # (only the pairings the finding records: bool with number, bool/number with bytes, int with timedelta64,
+    # timedelta64 with datetime64)
+    if case['op'] in LIST_OPS and f.kind in ('class', 'value') and _coerced_pair(case, f):
         return 'python-iterable-of-mixed-types-coerced-by-numpy'
     return None
 
@@ -357,7 +409,99 @@ def is_missing_fill(case):
     return any(is_missing(x) for x in arr_list(case['a']) + arr_list(case['b']))
 
 
+# ---------------------------------------------------------------------------------------------
+# Python iterables of guarded element types (ints of every magnitude, floats, str, None): the library
+# inspects such iterables element by element before handing them to NumPy; every order is generated
+
+ITER_POOL = [0, 3, -7, 2 ** 31, 10 ** 15, 10 ** 15 + 1, 2 ** 53, 2 ** 53 + 1, -(2 ** 53) - 1, 2 ** 60 + 1, 2 ** 63 - 1, -(2 ** 63), 2 ** 63, 2 ** 64 - 1,
+             1.5, -0.25, 1e300, float('nan'), 2.0, 'a', 'bcd', '', None, 1 + 2j]  # (tuples are outside the quantification: single-element interfaces only)
+ITER_ROUTES = ('series', 'series_from_items', 'frame_from_records', 'frame_from_items', 'frame_from_dict_records', 'series_assign', 'frame_from_fields',
+               'index', 'series_generator', 'frame_from_element_rows')
+
+
+@st.composite
+def iter_cases(draw):
+    # weighted towards ints and floats; a run of ints followed or preceded by a float is the interesting shape
+    pool_i = st.sampled_from([x for x in ITER_POOL if type(x) is int])
+    pool_f = st.sampled_from([x for x in ITER_POOL if type(x) in (float, complex)])
+    pool_o = st.sampled_from([x for x in ITER_POOL if type(x) not in (int, float, complex)])
+    el = st.one_of(pool_i, pool_i, pool_i, pool_f, pool_f, pool_o)
+    elems = draw(st.lists(el, min_size=2, max_size=6))
+    return {'elems': elems, 'route': draw(st.sampled_from(ITER_ROUTES)), 'op': 'iter'}
+
+
+def check_iter(case):
+    elems = list(case['elems'])
+    route = case['route']
+    n = len(elems)
+    cells = []
+    if route == 'index' and len({repr(canon(x)) if not is_missing(x) else 'nan' for x in elems}) != n:
+        raise Discard('duplicate labels')
+    if route == 'index' and any(is_missing(x) for x in elems):
+        raise Discard('missing label')
+
+    def run():
+        if route == 'series':
+            r = sf.Series(elems)
+        elif route == 'series_generator':
+            r = sf.Series((x for x in elems), index=range(n))
+        elif route == 'series_from_items':
+            r = sf.Series.from_items(zip(range(n), elems))
+        elif route == 'frame_from_records':
+            r = sf.Frame.from_records([(x, 0) for x in elems], columns=('x', 'y'))['x']
+        elif route == 'frame_from_items':
+            r = sf.Frame.from_items((('x', elems),))['x']
+        elif route == 'frame_from_dict_records':
+            r = sf.Frame.from_dict_records([{'x': x} for x in elems])['x']
+        elif route == 'frame_from_fields':
+            r = sf.Frame.from_fields([elems], columns=('x',))['x']
+        elif route == 'frame_from_element_rows':
+            r = sf.Frame.from_records([elems], columns=range(n)).iloc[0]
+        elif route == 'series_assign':
+            r = sf.Series(np.zeros(n, dtype=object)).assign.iloc[:](elems)
+        else:
+            r = sf.Series(np.zeros(n), index=sf.Index(elems)).index
+        if route == 'index':
+            vals = list(r)
+            if len(vals) != n:
+                raise Failure('length', 'index of %d labels from %d elements' % (len(vals), n))
+            for k, (g, w) in enumerate(zip(vals, elems)):
+                _cmp(g, w, 'iter:%s[%d]' % (route, k), cells)
+        elif route == 'frame_from_element_rows':
+            vals = arr_list(r.values)
+            for k, (g, w) in enumerate(zip(vals, elems)):
+                _cmp(g, w, 'iter:%s[%d]' % (route, k), cells)
+        else:
+            _series_cells(r, elems, 'iter:' + route, cells)
+    r = lib(run)
+    if isinstance(r, Raised):
+        if isinstance(r.exc, Failure):
+            raise r.exc
+        raise Discard('constructor raised loudly: %s' % r.cls)
+    _verify(cells, [])
+    kinds = {typeclass(x) for x in elems}
+    big = any(type(x) is int and abs(x) > 2 ** 53 for x in elems)
+    return {'nt': len(kinds) >= 2 or big, 'cls': ['iter:' + route, 'iter-big-int' if big else 'iter-small', 'iter-classes:%d' % len(kinds)]}
+
+
+def tag_iter(case, f):
+    """Only what the recorded findings state: an all-integer iterable reaching beyond int64 (NumPy gives float64), and
+    NumPy's coercion among unguarded classes (none of which is in this pool except complex/float with nothing)."""
+    elems = case['elems']
+    d = f.detail
+    if f.kind == 'value' and all(type(x) is int for x in elems) and any(abs(x) >= 2 ** 63 for x in elems) and d.rstrip().endswith(('(float)', '(float64)')):
+        return 'int64-beyond-2**53-promoted-to-float'
+    # a row read across an int64 column and a float column is array-level dtype resolution (the recorded finding), not
+    # the element-wise inspection of an iterable
+    if f.kind == 'value' and case['route'] == 'frame_from_element_rows' and any(_big_int(x) for x in elems) \
+            and any(typeclass(x) == 'inexact' for x in elems) and d.rstrip().endswith(('(float)', '(float64)', '(complex)', '(complex128)')):
+        return 'int64-beyond-2**53-promoted-to-float'
+    return None
+
+
 SUBS = [
     Sub('merge', cases(), check, quick=4000, thorough=160000, tag=tag,
         rule='provenance of every output cell of a merging operation over a kind pair'),
+    Sub('iterables', iter_cases(), check_iter, quick=2500, thorough=64000, tag=tag_iter,
+        rule='Python iterables of ints of every magnitude / floats / complex / str / None in every order through 10 constructor routes; every stored element equals the supplied one'),
 ]
